@@ -125,7 +125,10 @@ PartitionClauses(e) ==
                far  == IF cbT # {} THEN rest(CHOOSE t \in cbT : TRUE)
                        ELSE UNION {Range(x[2]) : x \in {y \in Range(c.occ) : ~NearbyCell(sysm, c.activeCell, y[1])}}
                complete == exT # {} /\ suT # {} /\ (cbT # {} \/ cvT # {})
-           IN  IF c.activeUid = 0 \/ ~complete THEN {} ELSE
+           IN  IF c.activeUid = 0 /\ complete /\ \E u \in rel : g[u][2] # 0
+               THEN V("C10", l, "Partition: a relevant unit moves but is not the active unit of its cell system, so none of its partners is treated by the cell-based families")
+               ELSE
+               IF c.activeUid = 0 \/ ~complete THEN {} ELSE
                If((near \cup sur \cup far) # rel \ {c.activeUid},
                   V("C10", l, "Partition: nearby, surplus and cell-veto/cell-bounding targets do not cover exactly the other relevant units"))
                \cup If(near \cap sur # {} \/ near \cap far # {} \/ sur \cap far # {},
@@ -274,6 +277,7 @@ ThinClauses(e) ==
         \cup UNION {If(KLt(KZero, th.q) /\ ~KLt(KZero, th.qb), V("C04", l, "Thinning: true rate positive but bounding rate not positive"))
                     \cup If(hm.dominating = 1 /\ ~KLe(th.q, th.qb), V("C04", l, "Domination: true rate exceeds the nearest-image 1/r bound"))
                     \cup If(~KEq(th.qb, th.qbref), V("C04", l, "Thinning: confirmation rate is not the sum of the positive pair bounds the event was proposed with"))
+                    \cup If("sliced" \in DOMAIN th /\ th.sliced = 0, V("C04", l, "RatesAtEventTime: the rates of the confirmation were evaluated while a moving unit of the handler's state was not time-sliced to the event time"))
                     : th \in Range(e.sub.thin)}
 
 LiftClauses(e) ==
